@@ -1,7 +1,8 @@
 ---------------------------- MODULE SelectionMC ----------------------------
 (* Model constants for Selection.tla: one package holding every declaration kind, the regex universe
    with its Match table (recomputed with Go's regexp by checks/c07.py -- a disagreement is exit 2),
-   and the `interfaces:` sections.  probes/select/decls.go.tmpl is the concrete text of MCDecls. *)
+   and the `interfaces:` sections.  MCDecls is exported with the tables; checks/c07.py (decl_text) turns every
+   abstract declaration into Go source, so the package under test is a concretisation of this constant. *)
 EXTENDS Selection
 
 D(n, k, s, f) == [name |-> n, kind |-> k, scope |-> s, file |-> f]
